@@ -19,8 +19,8 @@ PROPS = {
             "C10_span_table_vs_vm": [],
             "C10_compile_wellformed_partial": [],
             "C10_compile_wellformed_partial_strong": [],
-            "C10_A23_witness": [],
-            "C10_A24_witness": [],
+            "C10_A23_legacy_window_refuted": [],
+            "C10_A24_repaired": [],
         },
         n_quick=320, n_thorough=4000,
         gates=["obs.ok", "obs.panic", "obs.err.EInvalidJump", "obs.err.EDuplicateName", "obs.err.EEmptyVariable",
